@@ -18,7 +18,7 @@ def classify(op, impl):
 
 def run_ms(ctx, kind):
     """kind: 'wait' (C05) or 'hold' (C06)"""
-    prefix = {"wait": "C05:", "hold": "C06:"}[kind]
+    prefixes = {"wait": ["C05:"], "hold": ["C06:"], "both": ["C05:", "C06:"]}[kind]
     if ctx.lake_build(["Slock.Properties.C05Ms"], exe=True):
         ctx.audit("Slock.Properties.C05Ms", MS_THEOREMS)
     exe = ctx.build_harness("server", only=MS_FILES)
@@ -29,7 +29,7 @@ def run_ms(ctx, kind):
     outdir = ctx.run_harness(exe, "msw", 400 if thorough else 30, extra=env, timeout=1500)
     if outdir:
         dis = ctx.diff(outdir, "msw", classify=classify)
-        engine_common.read_monitor(ctx, outdir, "msw", [prefix])
+        engine_common.read_monitor(ctx, outdir, "msw", prefixes)
         if dis:
             d = dis[0]
             ctx.broken.append({"kind": "correspondence", "name": "M-MSWHEEL vs real millisecond stage (msw)",
@@ -37,7 +37,7 @@ def run_ms(ctx, kind):
             ctx.cov.setdefault("disagreements", []).append({"op": d[1], "impl": d[2], "model": d[3]})
     outdir = ctx.run_harness(exe, "msreal", 1, extra=env, timeout=600)
     if outdir:
-        engine_common.read_monitor(ctx, outdir, "msreal", [prefix])
+        engine_common.read_monitor(ctx, outdir, "msreal", prefixes)
         sp = os.path.join(outdir, "msreal.stats")
         if os.path.exists(sp):
             import json
